@@ -189,7 +189,7 @@ def run(replay=None):
     def small_stack():
         resource.setrlimit(resource.RLIMIT_STACK, (256 * 1024, 256 * 1024))
     try:
-        p = subprocess.run([exe_h], input=deep, stdout=subprocess.PIPE, stderr=subprocess.PIPE, text=True,
+        p = subprocess.run([exe_h], input=deep, stdout=subprocess.PIPE, stderr=subprocess.PIPE, text=True, errors="replace",
                            timeout=900, preexec_fn=small_stack)
         dl = [l for l in p.stdout.splitlines() if " DEEP " in l]
         stats["deep_chains"] = len(dl)
